@@ -279,6 +279,9 @@ class Verdict:
 
     def finish(self, extra_cov=None):
         os.makedirs(REPLAY, exist_ok=True)
+        for old in os.listdir(REPLAY):
+            if old.startswith(self.pid + "-"):
+                os.remove(os.path.join(REPLAY, old))
         if extra_cov:
             self.coverage.update(extra_cov)
         if not self.coverage["samples"]:
